@@ -577,8 +577,18 @@ pub open spec fn dispatch_ok(s: Raw, msgs: Seq<SubMsg<Empty>>, sender: Seq<char>
 @ensures C05.query_content C15
     r is Ok ==> r->Ok_0.id == id && r->Ok_0.msgs == prop_of(deps.storage.view(), id)->Some_0.msgs && r->Ok_0.expires == prop_of(deps.storage.view(), id)->Some_0.expires
         && r->Ok_0.proposer == prop_of(deps.storage.view(), id)->Some_0.proposer && r->Ok_0.deposit == prop_of(deps.storage.view(), id)->Some_0.deposit
+@ensures C03.query_threshold_is_proposals_own C06
+    r is Ok ==> r->Ok_0.threshold == prop_of(deps.storage.view(), id)->Some_0.threshold.resp(prop_of(deps.storage.view(), id)->Some_0.total_weight)
 @prefix
     proof { if prop_of(deps.storage.view(), id) is Some { assert(prop_inv(deps.storage.view(), id, prop_of(deps.storage.view(), id)->Some_0)); } }
+@end
+
+@fn contracts/cw3-flex-multisig/src/contract.rs query_threshold
+@ensures C06.query_threshold_current_group_total
+    r is Ok ==> cfg_of(deps.storage.view()) is Some && grp_total_now(deps.querier.world(), group_of(deps.storage.view())) is Some
+        && r->Ok_0 == cfg_of(deps.storage.view())->Some_0.threshold.resp(grp_total_now(deps.querier.world(), group_of(deps.storage.view()))->Some_0)
+@prefix
+    broadcast use cw3_axioms;
 @end
 
 @fn contracts/cw3-flex-multisig/src/contract.rs query_vote [closures: 1]
@@ -612,6 +622,7 @@ pub open spec fn dispatch_ok(s: Raw, msgs: Seq<SubMsg<Empty>>, sender: Seq<char>
 pub open spec fn shows(r: ProposalResponse<Empty>, id: u64, p: Proposal, b: &BlockInfo) -> bool {
     r.id == id && r.status == spec_status(p, b) && r.msgs == p.msgs && r.expires == p.expires && r.proposer == p.proposer
     && r.title == p.title && r.description == p.description && r.deposit == p.deposit
+    && r.threshold == p.threshold.resp(p.total_weight)
 }
 @fn contracts/cw3-flex-multisig/src/contract.rs map_proposal [closures: 1]
 @requires
